@@ -445,6 +445,44 @@ class HistGen:
         return {"t": "hist", "ops": ops}
 
 
+def gen_colorder(rng, kinds=KINDS):
+    """A directed history: databases holding the same property columns declared in different orders (the fingerprints of one
+    batch had their properties set in another order than those of the other batch, or the columns were set on the databases in
+    different orders), then concatenated in every order, subset and copied."""
+    live, ops = {}, []
+
+    def emit(op):
+        ops.append(op)
+        oracle_step(live, op)
+    kind = rng.choice(kinds)
+    bits, level = rng.choice([8, 64, 1024]), rng.choice([-1, 5])
+    keys = rng.choice([["pi", "pf"], ["pi", "ps"], ["pf", "pb", "ps"], ["pi", "pf", "pb", "ps"]])
+    via_set = rng.random() < 0.4
+    for j in range(2):
+        emit({"op": "new", "id": "d%d" % j, "kind": kind, "level": level, "name": rng.choice([None, "db"])})
+        order = list(keys)
+        if j == 1:
+            while order == keys:
+                rng.shuffle(order)
+        fps = [gen_fpin(rng, kind, bits, level, [] if via_set else order) for _ in range(rng.randint(1, 3))]
+        emit({"op": "add", "id": "d%d" % j, "fps": fps})
+        if via_set:
+            for k in order:
+                emit({"op": "set_prop", "id": "d%d" % j, "key": k, "vals": [gen_pval(rng, PROPTYPES[k]) for _ in fps]})
+    n = 2
+    for ids in (["d0", "d1"], ["d1", "d0"], rng.choice([["d0", "d1", "d0"], ["d1", "d1", "d0"]])):
+        emit({"op": "concat", "ids": ids, "out": "d%d" % n})
+        n += 1
+    src = "d%d" % rng.randrange(2, n)
+    nms = live[src].names()
+    if nms:
+        emit({"op": "subset", "id": src, "out": "d%d" % n, "names": [rng.choice(nms) for _ in range(2)], "name": None})
+        n += 1
+    emit({"op": "concat", "ids": [src, rng.choice(["d0", "d1"])], "out": "d%d" % n})
+    emit({"op": "get_index", "id": src, "i": len(live[src].rows) - 1})
+    return {"t": "hist", "ops": ops}
+
+
 # --------------------------------------------------------------------------------------
 # executing a history on the implementation
 # --------------------------------------------------------------------------------------
